@@ -330,9 +330,17 @@ class EnipWorld(object):
 
     def result(self):
         s = self.sched
+        faults = dict(self.net.faults_fired)
+        # scheduling faults, counted where they actually happened
+        if s.stalls:
+            faults['THREAD_STALL'] = s.stalls
+        if s.preempts:
+            faults['PREEMPTION'] = s.preempts
+        if s.probes.get('unlock_hold'):
+            faults['UNLOCK_HOLD'] = s.probes['unlock_hold']
         res = dict(
             violations=self.violations, digest=s.digest(), steps=s.steps, switches=s.switches,
-            vtime=round(s.now - s.start_time, 6), nevents=s.nevents, faults=self.net.faults_fired,
+            vtime=round(s.now - s.start_time, 6), nevents=s.nevents, faults=faults,
             probes=s.probes, preempts=s.preempts, sig=s.sched_sig.hexdigest()[:16],
             uncaught=s.uncaught, policy=s.policy, notes=self.notes,
         )
